@@ -12,6 +12,10 @@ mod eng_par;
 mod eng_viz;
 mod eng_ex;
 mod eng_exmodel;
+mod exm_max2sat;
+// the modules of the max2sat example (compiled in by `eng_exmodel`) name one another `crate::model`, `crate::data`, …
+#[allow(unused_imports)]
+use exm_max2sat::ex_max2sat::{data, errors, heuristics, model, relax};
 mod eng_domcyc;
 mod exgen;
 mod exgen_b;
